@@ -426,6 +426,14 @@ def main(argv=None):
         scanned, hits = source_scan(modules)
         if hits:
             proof_problems.append("forbidden construct in proof sources: " + "; ".join(hits[:5]))
+        recheck = None
+        if tier == "thorough" and not proof_problems and os.environ.get("VERIF_LEANCHECKER", "1") != "0":
+            # independent re-check of the compiled theorem modules by the toolchain's second kernel front end
+            t_lc = time.time()
+            rc, lout = run(["lake", "env", "leanchecker", *modules], cwd=LEAN, timeout=3600)
+            recheck = {"cmd": "lake env leanchecker " + " ".join(modules), "exit": rc, "seconds": round(time.time() - t_lc, 1)}
+            if rc != 0:
+                proof_problems.append("leanchecker rejected the compiled proof modules: " + lout[-1500:])
     obligations = len(theorems)
     bad_axioms = {n: a for n, a in theorems.items() if not set(a) <= ALLOWED_AXIOMS}
     discharged = obligations - len(bad_axioms)
@@ -512,6 +520,7 @@ def main(argv=None):
             "trusted_base": BASE_TRUSTED + list(getattr(mod, "TRUSTED", [])),
             "theorems": sorted(theorems),
             "proof_problems": proof_problems,
+            "leanchecker": recheck,
             "modules_scanned": scanned,
             "evaluations": R.evaluations,
             "distinct_nontrivial": len(R.distinct),
